@@ -174,14 +174,8 @@ def r5(run, db):
         if snd and rm:
             # removal only when a send returned false
             fe = false_edge(f, snd[0])
-            ok = False
-            for site, t in f.switches():
-                if t["dty"] == "bool":
-                    ft = flag_true_sites(f, site)
-                    e_false = f.edge_of(site, "false")
-                    if ft and e_false and f.edge_dominates(e_false, rm[0].site):
-                        ok = True
-            run.check(ok or (fe and f.edge_dominates(fe, rm[0].site)), "v2|remove-on-false", "a subscriber is removed only after its send returned false", None, f.where())
+            # (edge_dominates follows the decision through a recorded flag: `retain = false; break` .. `if !retain { remove }`)
+            run.check(bool(fe and f.edge_dominates(fe, rm[0].site)), "v2|remove-on-false", "a subscriber is removed only after its send returned false", None, f.where())
             run.check(f.in_cycle(snd[0].site) and f.in_cycle(rm[0].site), "v2|continues-with-next", "removal happens inside the subscriber loop (delivery to the others continues)", None, f.where())
         if snd and ap:
             run.check(f.in_cycle(ap[0].site) and f.reaches_after(snd[0].site, ap[0].site) and f.reaches_after(ap[0].site, snd[0].site), "v2|subscription-at-position", "a SetSubscriber is applied between the data segment before it and the one after it", None, f.where())
